@@ -261,20 +261,20 @@ theorem add_bounds (a b : F) (M : ℚ) (hM : |val a + val b| ≤ M) :
 
 /-- **a running sum of up to eight terms**, each term known to within `ep` and bounded by `2A`: after `n` terms the sum is known
 to within `n (ep + 26 A u)` and bounded by `3 A n` -/
-theorem fold_err (g : Nat → F) (w : Nat → ℚ) (A ep : ℚ) (hA : 0 ≤ A) (hep : 0 ≤ ep)
-    (hg : ∀ f, |val (g f) - w f| ≤ ep ∧ |val (g f)| ≤ 2 * A) :
-    ∀ (l : List Nat) (acc : F) (S : ℚ) (n : Nat), n + l.length ≤ 8 → |val acc - S| ≤ n * (ep + 26 * A * u) → |val acc| ≤ 3 * A * n →
+theorem fold_err (g : Nat → F) (w : Nat → ℚ) (A ep : ℚ) (hA : 0 ≤ A) :
+    ∀ (l : List Nat), (∀ f ∈ l, |val (g f) - w f| ≤ ep ∧ |val (g f)| ≤ 2 * A) →
+      ∀ (acc : F) (S : ℚ) (n : Nat), n + l.length ≤ 8 → |val acc - S| ≤ n * (ep + 26 * A * u) → |val acc| ≤ 3 * A * n →
       |val (l.foldl (fun acc f => add acc (g f)) acc) - (S + (l.map w).sum)| ≤ ((n + l.length : Nat) : ℚ) * (ep + 26 * A * u) ∧
       |val (l.foldl (fun acc f => add acc (g f)) acc)| ≤ 3 * A * ((n + l.length : Nat) : ℚ) := by
   have hu := u_pos
   intro l
   induction l with
-  | nil => intro acc S n _ h1 h2; simpa using ⟨h1, h2⟩
+  | nil => intro _ acc S n _ h1 h2; simpa using ⟨h1, h2⟩
   | cons f fs ih =>
-    intro acc S n hn h1 h2
+    intro hg acc S n hn h1 h2
     simp only [List.length_cons] at hn
     simp only [List.foldl_cons, List.map_cons, List.sum_cons]
-    obtain ⟨g1, g2⟩ := hg f
+    obtain ⟨g1, g2⟩ := hg f (by simp)
     have hnq : (n : ℚ) ≤ 7 := by exact_mod_cast (show n ≤ 7 by omega)
     have hn0 : (0 : ℚ) ≤ n := by positivity
     have hAu : 0 ≤ A * u := by positivity
@@ -293,7 +293,7 @@ theorem fold_err (g : Nat → F) (w : Nat → ℚ) (A ep : ℚ) (hA : 0 ≤ A) (
       push_cast
       have hu1 : u ≤ 1 / 23 := by unfold u; norm_num
       nlinarith
-    have := ih (add acc (g f)) (S + w f) (n + 1) (by omega) e1 e2
+    have := ih (fun f' hf' => hg f' (by simp [hf'])) (add acc (g f)) (S + w f) (n + 1) (by omega) e1 e2
     have e3 : S + w f + (fs.map w).sum = S + (w f + (fs.map w).sum) := by ring
     have e4 : n + 1 + fs.length = n + (fs.length + 1) := by omega
     rw [e3, e4] at this
@@ -323,7 +323,7 @@ open H263V.Idct in
 /-- **one 1-D transform**: inputs known to within `ε` and bounded by `A` give outputs known to within `8 (ε + 27 A u)` of the exact
 dot product with the table, bounded by `24 A` -/
 theorem idct1d_err (inp : Array F) (v : Nat → ℚ) (A ε : ℚ) (hA : 0 ≤ A) (hε : 0 ≤ ε)
-    (hin : ∀ f, |val (inp.getD f F32.zero) - v f| ≤ ε ∧ |val (inp.getD f F32.zero)| ≤ A) (i : Nat) (hi : i < 8) :
+    (hin : ∀ f, f < 8 → |val (inp.getD f F32.zero) - v f| ≤ ε ∧ |val (inp.getD f F32.zero)| ≤ A) (i : Nat) (hi : i < 8) :
     |val ((idct1d inp).getD i F32.zero) - ((List.range 8).map fun f => v f * val (basis f i)).sum| ≤ 8 * (ε + 27 * A * u) ∧
     |val ((idct1d inp).getD i F32.zero)| ≤ 24 * A := by
   have hu := u_pos
@@ -331,10 +331,11 @@ theorem idct1d_err (inp : Array F) (v : Nat → ℚ) (A ε : ℚ) (hA : 0 ≤ A)
   unfold idct1d
   rw [getD_ofFn, dif_pos hi]
   simp only
-  have hg : ∀ f, |val (mul (inp.getD f F32.zero) (basis f i)) - v f * val (basis f i)| ≤ (ε + A * u) ∧
+  have hg : ∀ f ∈ List.range 8, |val (mul (inp.getD f F32.zero) (basis f i)) - v f * val (basis f i)| ≤ (ε + A * u) ∧
       |val (mul (inp.getD f F32.zero) (basis f i))| ≤ 2 * A := by
-    intro f
-    obtain ⟨h1, h2⟩ := hin f
+    intro f hf
+    rw [List.mem_range] at hf
+    obtain ⟨h1, h2⟩ := hin f hf
     have hb := basis_abs f i
     have hm := mul_err (inp.getD f F32.zero) (basis f i)
     have hprod : |val (inp.getD f F32.zero) * val (basis f i)| ≤ A := by
@@ -363,7 +364,7 @@ theorem idct1d_err (inp : Array F) (v : Nat → ℚ) (A ε : ℚ) (hA : 0 ≤ A)
         simpa using this
       nlinarith
   have := fold_err (fun f => mul (inp.getD f F32.zero) (basis f i)) (fun f => v f * val (basis f i)) A (ε + A * u) hA
-    (by positivity) hg (List.range 8) F32.zero 0 0 (by simp) (by simp [val_zero]) (by simp [val_zero])
+    (List.range 8) hg F32.zero 0 0 (by simp) (by simp [val_zero]) (by simp [val_zero])
   simp only [zero_add, List.length_range] at this
   obtain ⟨t1, t2⟩ := this
   constructor
@@ -371,5 +372,81 @@ theorem idct1d_err (inp : Array F) (v : Nat → ℚ) (A ε : ℚ) (hA : 0 ≤ A)
     rw [e] at t1; exact t1
   · have e : 3 * A * ((8 : Nat) : ℚ) = 24 * A := by push_cast; ring
     rw [e] at t2; exact t2
+
+theorem tdiv_bounds (m D : Int) (hD : 0 < D) :
+    (0 ≤ m → (m : ℚ) / D - 1 < (m.tdiv D : ℚ) ∧ (m.tdiv D : ℚ) ≤ (m : ℚ) / D) ∧
+    (m ≤ 0 → (m : ℚ) / D ≤ (m.tdiv D : ℚ) ∧ (m.tdiv D : ℚ) < (m : ℚ) / D + 1) := by
+  have hdm := Int.mul_tdiv_add_tmod m D
+  have hDq : (0 : ℚ) < D := by exact_mod_cast hD
+  have hq : (m : ℚ) / D = (m.tdiv D : ℚ) + (m.tmod D : ℚ) / D := by
+    have : (m : ℚ) = (D : ℚ) * (m.tdiv D : ℚ) + (m.tmod D : ℚ) := by exact_mod_cast hdm.symm
+    rw [this, add_div, mul_div_cancel_left₀ _ (ne_of_gt hDq)]
+  constructor
+  · intro hm
+    have h1 : (0 : ℚ) ≤ (m.tmod D : ℚ) := by exact_mod_cast Int.tmod_nonneg D hm
+    have h2 : ((m.tmod D : Int) : ℚ) < D := by exact_mod_cast Int.tmod_lt_of_pos m hD
+    have h3 : 0 ≤ (m.tmod D : ℚ) / D := by positivity
+    have h4 : (m.tmod D : ℚ) / D < 1 := by rw [div_lt_one hDq]; exact h2
+    constructor <;> linarith
+  · intro hm
+    have h1 : ((m.tmod D : Int) : ℚ) ≤ 0 := by
+      have e1 := Int.neg_tmod (-m) D
+      rw [Int.neg_neg] at e1
+      have e2 := Int.tmod_nonneg D (show 0 ≤ -m by omega)
+      have : m.tmod D ≤ 0 := by omega
+      exact_mod_cast this
+    have h2 : -(D : ℚ) < ((m.tmod D : Int) : ℚ) := by exact_mod_cast Int.lt_tmod_of_pos m hD
+    have h3 : (m.tmod D : ℚ) / D ≤ 0 := div_nonpos_of_nonpos_of_nonneg h1 (le_of_lt hDq)
+    have h4 : -1 < (m.tmod D : ℚ) / D := by
+      rw [lt_div_iff₀ hDq]; linarith
+    constructor <;> linarith
+
+/-- truncation toward zero moves a value by less than one, toward zero -/
+theorem trunc_bounds (a : F) :
+    (0 ≤ val a → val a - 1 < (trunc a : ℚ) ∧ (trunc a : ℚ) ≤ val a) ∧
+    (val a ≤ 0 → val a ≤ (trunc a : ℚ) ∧ (trunc a : ℚ) < val a + 1) := by
+  unfold trunc
+  by_cases he : a.e ≥ 0
+  · rw [if_pos he]
+    have : ((a.m * (2 : Int) ^ a.e.toNat : Int) : ℚ) = val a := by
+      unfold val; push_cast; rw [zpow_toNat _ he]
+    rw [this]
+    constructor <;> intro _ <;> constructor <;> linarith
+  · rw [if_neg he]
+    have hd : (0 : Int) < (2 : Int) ^ (-a.e).toNat := by positivity
+    have hval : val a = (a.m : ℚ) / (((2 : Int) ^ (-a.e).toNat : Int) : ℚ) := by
+      unfold val
+      push_cast
+      rw [zpow_toNat _ (by omega), zpow_neg, div_eq_mul_inv, inv_inv]
+    have hsign : (0 ≤ val a ↔ 0 ≤ a.m) ∧ (val a ≤ 0 ↔ a.m ≤ 0) := by
+      unfold val
+      have hp := two_zpow_pos a.e
+      constructor
+      · constructor
+        · intro h
+          have : (0 : ℚ) ≤ a.m := by
+            by_contra hc
+            have hc := lt_of_not_ge hc
+            have := mul_neg_of_neg_of_pos hc hp
+            linarith
+          exact_mod_cast this
+        · intro h
+          have : (0 : ℚ) ≤ a.m := by exact_mod_cast h
+          positivity
+      · constructor
+        · intro h
+          have : (a.m : ℚ) ≤ 0 := by
+            by_contra hc
+            have hc := lt_of_not_ge hc
+            have := mul_pos hc hp
+            linarith
+          exact_mod_cast this
+        · intro h
+          have : (a.m : ℚ) ≤ 0 := by exact_mod_cast h
+          exact mul_nonpos_of_nonpos_of_nonneg this (le_of_lt hp)
+    obtain ⟨t1, t2⟩ := tdiv_bounds a.m _ hd
+    rw [hval]
+    rw [hval] at hsign
+    exact ⟨fun h => t1 (hsign.1.1 h), fun h => t2 (hsign.2.1 h)⟩
 
 end H263V.Lemmas.F32Err
